@@ -115,7 +115,9 @@ pub fn run_batch(args: BatchArgs) -> i32 {
         }
         let seed = args.run_seed(run);
         let case = gen_case2(&prop, seed, run);
+        simcore::watchdog::begin_case(seed, serde_json::json!({"l2_seq": [case]}));
         let ex = exec(&case, None);
+        simcore::watchdog::end_case();
         b.res.runs += 1;
         b.res.ops += ex.ops_done as u64;
         b.res.sim_ns += ex.sim_ns as i128;
